@@ -319,7 +319,11 @@ func (sc *scenario) tags(pan bool, events []string) string {
 
 func emit(sc *scenario) {
 	pan, events := runScenario(sc)
-	w.Case("sync.run", sc.tags(pan, events), sc.args(), lib.V(lib.Bool(pan), lib.L(events...)))
+	kind := "sync.run"
+	if sc.fam == "extreme-known" {
+		kind = "sync.extreme"
+	}
+	w.Case(kind, sc.tags(pan, events), sc.args(), lib.V(lib.Bool(pan), lib.L(events...)))
 }
 
 func driftCase(driftNs, d int64) {
